@@ -188,5 +188,23 @@ func ParseEventFilter(v string) []EventFilter {
 		results = append(results, result)
 	}
 
-	return results
+	// Drop filters covered by another filter of the same handler, so that
+	// the handler runs once per matching event.
+	covers := func(a, b EventFilter) bool {
+		return a.Event == "*" || (a.Event == b.Event && (a.Name == "" || a.Name == b.Name))
+	}
+	kept := results[:0:0]
+	for i, f := range results {
+		covered := false
+		for j, g := range results {
+			if i != j && covers(g, f) && (!covers(f, g) || j < i) {
+				covered = true
+				break
+			}
+		}
+		if !covered {
+			kept = append(kept, f)
+		}
+	}
+	return kept
 }
